@@ -934,4 +934,75 @@ example : ((parseGround decNum ["GROUND TEMPERATURES", "2", "0.5", "1.2", "", "0
         (fun gs => gs.map fun g => (g.cond, g.dens, g.heat))) = some [("1.2", "", "0"), ("", "1600", "0.85")] := by
   decide +kernel
 
+/-! ### Equal values of different text (round 5): every cell is printed from itself -/
+
+/-- **The written text of a cell is the text of that cell's own value.**  For a table of one year's length with
+    `nf` cells per row, writing what the import stored gives, row for row and field for field, `str` of the value
+    parsed from that very cell: no other cell of the column, of the row or of the file has a say.  In particular
+    two cells of one column whose values compare equal but print differently (`0.0` / `-0.0`) keep their own
+    text, whatever the flags and wherever they sit. -/
+theorem C01_write_cellwise {Tok Val : Type} (c : Codec Tok Val) (flag : Nat → Bool) (leap : Bool) (nf : Nat)
+    (tbl : List (List Val)) (hrect : ∀ row ∈ tbl, row.length = nf) (hN : tbl.length = hoursInYear leap) :
+    (writeBody c flag leap (onFlagged flag rot (transp nf tbl))).1 = .ok (tbl.map (·.map c.shw)) := by
+  simp only [writeBody]
+  rw [onFlagged_comp flag unrot rot unrot_rot]
+  have hall : (transp nf tbl).all (fun col => hoursInYear leap ≤ col.length) = true := by
+    rw [List.all_eq_true]
+    intro col hcol
+    have := transp_col_length tbl nf hrect col hcol
+    simp [this, hN]
+  rw [if_pos hall, ← hN, transp_transp tbl tbl.length nf rfl hrect]
+
+/-- Pointwise reading of `C01_write_cellwise`: the token written at row `r`, field `k` is `str` of the value the
+    table holds at row `r`, field `k`. -/
+theorem C01_write_cell_own_text {Tok Val : Type} (c : Codec Tok Val) (flag : Nat → Bool) (leap : Bool) (nf : Nat)
+    (tbl : List (List Val)) (hrect : ∀ row ∈ tbl, row.length = nf) (hN : tbl.length = hoursInYear leap)
+    (r k : Nat) (row : List Val) (v : Val) (hr : tbl[r]? = some row) (hk : row[k]? = some v) :
+    ∃ out, (writeBody c flag leap (onFlagged flag rot (transp nf tbl))).1 = .ok out ∧
+      (out[r]?.bind (·[k]?)) = some (c.shw v) := by
+  refine ⟨_, C01_write_cellwise c flag leap nf tbl hrect hN, ?_⟩
+  simp [List.getElem?_map, hr, hk]
+
+/-- **A memoised write is the write exactly when its key tells apart everything that prints differently.**  If
+    the relation by which a per-column memo recognises "the same value" implies equal text, the memoised column
+    is the column written cell by cell (so a memo keyed by the text, by identity, or by `(type, sign, value)` is
+    harmless) ... -/
+theorem C01_memo_write_sound {Tok Val : Type} (eqv : Val → Val → Bool) (shw : Val → Tok)
+    (h : ∀ a b, eqv a b = true → shw a = shw b) (col : List Val) : memoCol eqv shw col = col.map shw := by
+  unfold memoCol
+  apply List.map_congr_left
+  intro v _
+  unfold memoText
+  cases hf : col.find? (fun w => eqv w v) with
+  | none => rfl
+  | some w => exact h w v (by simpa using List.find?_some hf)
+
+/-- ... and Python's `==` is not such a key: `0.0 == -0.0` and `1 == 1.0`, but their texts differ. -/
+theorem C01_equal_values_different_text_counterexample :
+    (Cell.pyEq (.flt true 0 0) (.flt false 0 0) = true ∧ showCell (.flt true 0 0) ≠ showCell (.flt false 0 0)) ∧
+    (Cell.pyEq (.int 1) (.flt false 1 0) = true ∧ showCell (.int 1) ≠ showCell (.flt false 1 0)) := by
+  decide +kernel
+
+/-- Hence a write that memoises the text by value (`==`) differs from `to_file_string` on a column that holds
+    both zeros - in either order of first appearance - and the sign of the later zero is lost on the read back. -/
+theorem C01_memo_by_equality_counterexample :
+    memoCol Cell.pyEq showCell [.flt false 0 0, .flt true 0 0] ≠ [Cell.flt false 0 0, .flt true 0 0].map showCell ∧
+    memoCol Cell.pyEq showCell [.flt true 0 0, .flt false 0 0] ≠ [Cell.flt true 0 0, .flt false 0 0].map showCell ∧
+    (memoCol Cell.pyEq showCell [.flt false 0 0, .flt true 0 0]).map (parseCell 6) ≠
+      [some (.flt false 0 0), some (.flt true 0 0)] := by
+  decide +kernel
+
+/-- **The sign of zero survives read, write, read in the driver codec**: `-0.0` and `0.0` of a float field parse
+    to different cells, each prints as the token it was read from and parses back to itself. -/
+theorem C01_signed_zero_roundtrip :
+    parseCell 6 "-0.0" = some (.flt true 0 0) ∧ parseCell 6 "0.0" = some (.flt false 0 0) ∧
+    showCell (.flt true 0 0) = "-0.0" ∧ showCell (.flt false 0 0) = "0.0" ∧
+    canonRow decCodec 8 ["2017", "1", "1", "1", "0", "?9", "-0.0", "0.0"] = ["2017", "1", "1", "1", "0", "?9", "-0.0", "0.0"] := by
+  decide +kernel
+
+/-- Non-vacuity of `C01_memo_write_sound`: a key coarser than the text changes the column, a key as fine as the
+    text does not. -/
+example : memoCol (fun a b => a % 2 == b % 2) (fun v : Nat => v) [1, 3, 2] = [1, 1, 2] ∧
+    memoCol (fun a b : Nat => a == b) (fun v : Nat => v) [1, 3, 2] = [1, 3, 2] := by decide
+
 end Epw
